@@ -3,16 +3,17 @@
 # breaks, and undoes it straight afterwards. Prints one line per seed.
 DIR="${1:-/verif/seeded}"
 cd /verif
-for d in $DIR/C*-*; do
-  id=$(basename $d | cut -c1-3)
+for d in ${SEED_DIRS:-$DIR/C*-*}; do
+  sid=$(basename $d)
+  id=$(echo $sid | cut -c1-3)
   for f in $d/patch.diff; do
     [ -f "$f" ] || continue
     v=$(basename $f | sed 's/.patch.diff//; s/patch.diff//')
     git -C /repo checkout -q -- . 
-    if ! git -C /repo apply "$f" 2>/dev/null; then echo "$id $v APPLY-FAILED"; git -C /repo checkout -q -- .; continue; fi
+    if ! git -C /repo apply "$f" 2>/dev/null; then echo "$sid APPLY-FAILED"; git -C /repo checkout -q -- .; continue; fi
     out=$(./check $id quick 2>&1); code=$?
     git -C /repo reset -q; git -C /repo checkout -q -- .
-    echo "$id ${v:-.} exit=$code $(echo "$out" | grep -A1 '^VIOLATION' | grep signature | head -3 | tr '\n' ';' | cut -c1-300) $(echo "$out" | grep -E '^ERROR|^INCONCLUSIVE' | head -1 | cut -c1-200)"
+    echo "$sid exit=$code $(echo "$out" | grep -A1 '^VIOLATION' | grep signature | head -4 | tr '\n' ';' | cut -c1-300) $(echo "$out" | grep -E '^ERROR|^INCONCLUSIVE' | head -1 | cut -c1-200)"
   done
 done
 git -C /repo status --short | head -3
